@@ -531,11 +531,16 @@ class Episode:
             self.last_reasons = reasons
             # a rejected round may not swallow outcomes: a container that was live before the call and is gone after it
             # ended during the call, and its result went nowhere
-            live_after = {c.container_id for p in self.ex.pools for c in list(p.active_containers) + list(p.suspending_containers)}
-            done_after = {c.container_id for p in self.ex.pools for c in p.suspended_containers}
-            for cid_ in live_before:
-                if cid_ not in live_after and cid_ not in done_after:
-                    self.problem("C09:outcome-lost-in-rejected-round", f"{cid_} was live before the rejected round and is gone after it; no result was delivered")
+            # Only for rounds rejected solely because a command names a pool that does not exist: every other command of
+            # such a round is valid, so the rejection may not swallow outcomes of the existing pools.  (A round rejected by
+            # one pool - oversell, bad suspension - aborts the executor mid-call; what happened in pools processed before
+            # it is not covered by any listed property.)
+            if all(tag == "C09" for tag, _ in reasons):
+                live_after = {c.container_id for p in self.ex.pools for c in list(p.active_containers) + list(p.suspending_containers)}
+                done_after = {c.container_id for p in self.ex.pools for c in p.suspended_containers}
+                for cid_ in live_before:
+                    if cid_ not in live_after and cid_ not in done_after:
+                        self.problem("C09:outcome-lost-in-rejected-round", f"{cid_} was live before a round that was rejected only for naming a non-existent pool, and is gone after it; no result was delivered")
             for tag, _ in reasons:
                 out.label("reject_" + tag)
             # an overselling batch leaves its pool untouched
